@@ -34,6 +34,9 @@ def cases(ctx):
         singles["format_opt_" + f] = {"type": "object", "properties": {"o": {"type": ["string", "null"], "format": f}}}
     for nm, sch in sorted(singles.items()):
         out.append(("single:" + nm, {"settings": sts[len(nm) % 2], "calls": [{"root": {"definitions": {"Only": sch}}}]}))
+    import corpus
+    for cid, cdoc, _ in corpus.documents():
+        if cid.startswith(("hand:", "file:")): out.append(("corpus:" + cid, {"settings": sts[len(cid) % 2], "calls": [{"root": cdoc}]}))
     n = 300 if ctx.tier == "thorough" else 50
     for k in range(n):
         feats = set(gen.FEATURE_SETS["defaults" if k % 3 == 0 else "default"]) | ({"string_formats"} if k % 5 == 0 else set())
